@@ -49,22 +49,26 @@ pub fn ref64(iv: [u64; 8], full: bool, outlen: usize, msg: &[u8]) -> Vec<u8> {
 }
 
 pub fn drive<D: Default + Update + FixedOutput + Reset + Clone>(fam: &str, name: &str, block: usize, reference: &dyn Fn(&[u8]) -> Vec<u8>, rng: &mut Rng, iters: usize) {
-    // one-shot, every length up to 3 blocks + 1
+    // conformance: one-shot, every length up to 3 blocks + 1
     for len in 0..=(3 * block + 1) {
         let msg = rng.bytes(len);
         let mut d = D::default();
         d.update(&msg);
         let got = d.finalize_fixed().to_vec();
         crate::case();
-        if got != reference(&msg) { report(fam, name, format!("one-shot digest differs for a {}-byte message {}", len, hex(&msg))); return; }
+        if got != reference(&msg) { report(fam, name, format!("one-shot digest differs from the specification for a {}-byte message {}", len, hex(&msg))); break; }
     }
-    // partitions, clones, reuse after reset / finalize_fixed_reset / reset of a used hasher
+    // partitions, clones, reuse after reset / finalize_fixed_reset / reset of a used hasher: compared with
+    // the crate's own one-call digest (C08) and with the specification
     let mut reused = D::default();
     for it in 0..iters {
         let len = rng.below(4 * block + 2);
         let msg = rng.bytes(len);
         let parts = rng.partition(len, block);
-        let exp = reference(&msg);
+        let spec = reference(&msg);
+        let mut one = D::default();
+        one.update(&msg);
+        let exp = one.finalize_fixed().to_vec();
         crate::case();
         let mut d = D::default();
         let mut off = 0;
@@ -76,16 +80,17 @@ pub fn drive<D: Default + Update + FixedOutput + Reset + Clone>(fam: &str, name:
             off += c;
         }
         let got = d.finalize_fixed().to_vec();
-        if got != exp { report(fam, name, format!("digest depends on the partition: len={} pieces={:?} msg={}", len, parts, hex(&msg))); return; }
+        if got != exp { report(fam, name, format!("digest depends on the partition: len={} pieces={:?} differs from the one-call digest; msg={}", len, parts, hex(&msg))); return; }
+        if got != spec { report(fam, name, format!("digest differs from the specification: len={} pieces={:?} msg={}", len, parts, hex(&msg))); return; }
         if let Some((mut c2, o2)) = cl {
             c2.update(&msg[o2..]);
-            if c2.finalize_fixed().to_vec() != exp { report(fam, name, format!("a clone taken at offset {} diverges: len={} pieces={:?}", o2, len, parts)); return; }
+            if c2.finalize_fixed().to_vec() != exp { report(fam, name, format!("a clone taken at offset {} diverges from the original: len={} pieces={:?} msg={}", o2, len, parts, hex(&msg))); return; }
         }
         // reuse
         let mode = it % 3;
         reused.update(&msg);
         let g = if mode == 0 { let g = reused.clone().finalize_fixed().to_vec(); reused.reset(); g } else { reused.finalize_fixed_reset().to_vec() };
-        if g != exp { report(fam, name, format!("reused hasher (mode {}) gives a different digest for len={} msg={}", mode, len, hex(&msg))); return; }
+        if g != exp { report(fam, name, format!("reused hasher ({}) gives a different digest than a new one for len={} msg={}", ["clone+finalize, reset", "finalize_fixed_reset", "finalize_fixed_reset, junk, reset"][mode], len, hex(&msg))); return; }
         if mode == 2 { let jn = rng.below(2 * block); let junk = rng.bytes(jn); reused.update(&junk); reused.reset(); }
     }
 }
